@@ -183,6 +183,30 @@ where
         // Validate welcome event structure per MIP-02
         Self::validate_welcome_event(rumor_event)?;
 
+        // An invitation this client has stored is answered from storage, whatever has happened
+        // since: delivered again under another wrapper id it is not staged again (and not reset
+        // to pending), and a failed attempt to accept or decline it (the key package it was
+        // built for has been deleted, say) does not turn it into a failed invitation. The
+        // wrapper is remembered so that it is recognised next time.
+        if let Some(rumor_event_id) = rumor_event.id
+            && let Some(existing) = self
+                .storage()
+                .find_welcome_by_event_id(&rumor_event_id)
+                .map_err(|e| Error::Welcome(e.to_string()))?
+        {
+            let processed_welcome = welcome_types::ProcessedWelcome {
+                wrapper_event_id: *wrapper_event_id,
+                welcome_event_id: Some(rumor_event_id),
+                processed_at: Timestamp::now(),
+                state: welcome_types::ProcessedWelcomeState::Processed,
+                failure_reason: None,
+            };
+            self.storage()
+                .save_processed_welcome(processed_welcome)
+                .map_err(|e| Error::Welcome(e.to_string()))?;
+            return Ok(existing);
+        }
+
         if let Some(processed_welcome) = self
             .storage()
             .find_processed_welcome_by_event_id(wrapper_event_id)
@@ -213,27 +237,6 @@ where
 
         // Refuse a rumor without an id before anything is written for it
         let rumor_event_id = rumor_event.id.ok_or(Error::MissingRumorEventId)?;
-
-        // The same invitation delivered again under another wrapper id: return the stored
-        // welcome as it is (accepted, declined or still pending) instead of staging it again
-        // and resetting it to pending. Remember the wrapper so that it is recognised next time.
-        if let Some(existing) = self
-            .storage()
-            .find_welcome_by_event_id(&rumor_event_id)
-            .map_err(|e| Error::Welcome(e.to_string()))?
-        {
-            let processed_welcome = welcome_types::ProcessedWelcome {
-                wrapper_event_id: *wrapper_event_id,
-                welcome_event_id: Some(rumor_event_id),
-                processed_at: Timestamp::now(),
-                state: welcome_types::ProcessedWelcomeState::Processed,
-                failure_reason: None,
-            };
-            self.storage()
-                .save_processed_welcome(processed_welcome)
-                .map_err(|e| Error::Welcome(e.to_string()))?;
-            return Ok(existing);
-        }
 
         let welcome_preview = self.preview_welcome(wrapper_event_id, rumor_event)?;
 
@@ -408,7 +411,6 @@ where
         // (the member's own request to leave, typically) would be loaded into the new state
         // and keep the member from sending until the next commit.
         {
-            use openmls_traits::storage::StorageProvider as _;
             self.provider
                 .storage()
                 .clear_proposal_queue::<openmls::group::GroupId, hash_ref::ProposalRef>(
